@@ -4,7 +4,7 @@
 # line per check: "<dir> <ID> CAUGHT|missed|inconclusive <seconds>". Results are appended to
 # seeded/<dir>/runs.log (the kill matrix in DESIGN.md §7b is compiled from these).
 D="$(realpath "$1")"; shift
-cd /verif
+cd "${VERIF_EVAL_DIR:-/verif}"
 if ! git -C /repo diff --quiet; then echo "/repo has uncommitted changes; refusing"; exit 3; fi
 git -C /repo apply "$D/patch.diff" || { echo "patch does not apply: $D"; exit 3; }
 trap 'git -C /repo checkout -- . ; git -C /repo clean -fdq src tests 2>/dev/null' EXIT
